@@ -20,6 +20,8 @@ pub struct DynSum {
     pub with_bind: bool,
     /// start from an already observed and stabilised graph (those three actions are not counted)
     pub warm: bool,
+    /// warm start with two dependencies already planned and the reconcile node kept needed by its own observer
+    pub warm_deps: bool,
 }
 
 const C_VAR: usize = 0;
@@ -188,7 +190,7 @@ fn reconcile(sh: &Rc<Sh>, expert: &WeakNode<SV>, children: &[Incr<SV>]) {
 
 impl Scenario for DynSum {
     fn name(&self) -> String {
-        format!("C14/dynamic_sum{}{}", if self.with_bind { "_with_bind_children" } else { "" }, if self.warm { "_warm" } else { "" })
+        format!("C14/dynamic_sum{}{}{}", if self.with_bind { "_with_bind_children" } else { "" }, if self.warm { "_warm" } else { "" }, if self.warm_deps { "_deps" } else { "" })
     }
     fn run(&self) {
         let state = IncrState::new();
@@ -270,6 +272,11 @@ impl Scenario for DynSum {
         let r = catch(|| {
             w.sh.add_first.set(choose(2) == 1);
             op_log(format!("reconcile order: {}", if w.sh.add_first.get() { "add then remove" } else { "remove then add" }));
+            if self.warm_deps {
+                w.sh.plan.borrow_mut()[C_VAR] = 1;
+                w.sh.plan.borrow_mut()[C_MAP] = 1;
+                w.keep_reconcile_obs = Some(w.reconcile_node.observe());
+            }
             if warm {
                 w.keep_child_obs = Some(w.children[C_MAP].observe());
                 w.obs = Some(w.top.observe());
